@@ -1,4 +1,6 @@
 import MalVerif.Py.TieLangTypeBuild
+import MalVerif.Py.TieLangTypeFinal
+import MalVerif.Py.TieLangTypeTotal
 /-!
 # C15 for the *translated* construction of the language graph (`_generate_graph`, `process_step_expression`)
 
@@ -16,8 +18,250 @@ open MalVerif.Py.TieLangType
 /-- the association nodes of a built heap, read back -/
 abbrev builtNodes (s : TH) : List AssocDecl := s.g.associations.map (fullDeclOf s)
 
+/-! ## Part 1 — general theorems: every language, every recursion limit
+
+`WellFormed L`: what the theorems assume of the language — nothing about its graph.  `runBuild L R` is the GENERATED
+`lg__generate_graph` on the specification heap `loadPy L` with recursion limit `R`. -/
+
+/-- the hypotheses on the language -/
+structure WellFormed (L : Lang) : Prop where
+  /-- no asset has the empty string as super asset (the Python reads `''` like `None`) -/
+  load : LoadOK L
+  /-- asset names are pairwise distinct (`duplicate_names_disagree` shows what happens otherwise) -/
+  names : (L.assets.map (·.name)).Nodup
+  /-- no `extends` cycle (with one the Python runs into `RecursionError` while the fuel-bounded hand model accepts:
+  `build_cyclic_extends`) -/
+  acyclic : Acyclic L
+  /-- the hand model's fuel `genFuel L` for variables inside variables reaches every typing any fuel reaches — a
+  statement about the hand model alone; `wellFormed_of_flat`: true when no variable definition uses a variable -/
+  fuel : ∀ nodes, GenFuelEnough L nodes
+
+/-- a decidable sufficient condition -/
+theorem wellFormed_of_flat (L : Lang) (h1 : LoadOK L) (h2 : (L.assets.map (·.name)).Nodup) (h3 : Acyclic L)
+    (h4 : VarsFlat L) : WellFormed L :=
+  ⟨h1, h2, h3, fun nodes => genFuelEnough_of_flat L nodes h4⟩
+
+theorem runBuild_eq (L : Lang) (R : Nat) : runBuild L R = runBuildH (loadPy L) R := rfl
+
+/-- **the translated `_generate_graph` builds the hand model's graph**: whenever it returns — for ANY recursion
+limit — the hand model accepts the language and the heap is `Built`: it represents `L` (`RepG`, `RepA`, `RepAssocs`),
+its association objects are the hand model's nodes, its links the hand model's links (as a multiset), mirrored in
+`children` and `parents`, its attack-step objects the inherited steps -/
+theorem built_of_run (L : Lang) (hw : WellFormed L) (R : Nat) (s : TH) (hr : runBuild L R = .ok s) :
+    ∃ g, generate L = .ok g ∧ Built s L g := by
+  have hL := absLang_loadPy L hw.load
+  have := build_sound (loadPy L) R (specOK_loadPy L hw.load hw.names) (by rw [hL]; exact hw.acyclic)
+    (by rw [hL]; exact hw.fuel) s hr
+  rw [hL] at this
+  exact this
+
+/-- **`RepG` of a built graph** — the assumption of the `lang` domain's theorems (`PropsGen/C15.lean`) discharged:
+one asset object per declaration, in order, carrying its name; `super_assets` / `sub_assets` mirror `extends` -/
+theorem repG_of_build (L : Lang) (hw : WellFormed L) (R : Nat) (s : TH) (hr : runBuild L R = .ok s) : RepG s.g L := by
+  obtain ⟨g, _, hb⟩ := built_of_run L hw R s hr
+  exact hb.repT.repG
+
+/-- **`RepA` of a built graph**: the association objects are the hand model's association nodes, in creation order -/
+theorem repA_of_build (L : Lang) (hw : WellFormed L) (R : Nat) (s : TH) (hr : runBuild L R = .ok s) :
+    ∃ nodes, assocNodes L = .ok nodes ∧ RepA s.g L nodes ∧ builtNodes s = nodes := by
+  obtain ⟨g, hg, hb⟩ := built_of_run L hw R s hr
+  exact ⟨g.assocs, (generate_ok hg).2.2.1, hb.repT.repA, hb.full⟩
+
 /-- **one asset object per declared asset**, in declaration order, carrying its name -/
-theorem one_asset_per_declaration (L : Lang) (R : Nat) (s : TH) (h : BuildAgrees L R) (hr : runBuild L R = .ok s) :
+theorem one_asset_per_declaration (L : Lang) (hw : WellFormed L) (R : Nat) (s : TH) (hr : runBuild L R = .ok s) :
+    s.g.assets.map (gname s.g) = L.assets.map (·.name) := by
+  obtain ⟨g, _, hb⟩ := built_of_run L hw R s hr
+  exact hb.asset_names
+
+/-- **super links mirror `extends`**: the `super_assets` of the object of a declaration are the object named by
+its `superAsset` — one object if it names one, none otherwise -/
+theorem super_links_mirror_extends (L : Lang) (hw : WellFormed L) (R : Nat) (s : TH) (hr : runBuild L R = .ok s)
+    (r : GARef) (hmem : r ∈ s.g.assets) :
+    (s.g.asset r).super_assets.map (gname s.g) = (superOf L (gname s.g r)).toList ∧
+    ∀ x ∈ (s.g.asset r).super_assets, x ∈ s.g.assets := by
+  have hG := repG_of_build L hw R s hr
+  rw [hG.supers r hmem]
+  cases hso : superOf L (gname s.g r) with
+  | none => exact ⟨rfl, fun x hx => by simp at hx⟩
+  | some t =>
+    have hdecl : (L.findAsset t).isSome = true := by
+      unfold superOf at hso
+      cases hfa : L.findAsset (gname s.g r) with
+      | none => rw [hfa] at hso; cases hso
+      | some a =>
+        rw [hfa] at hso
+        exact (supersOk_iff L).1 hG.supers_ok a (findAsset_mem hfa) t hso
+    have hsome := (TieLangGraph.repG_refOf_isSome_iff hG t).2 hdecl
+    cases hrf : refOf s.g t with
+    | none => rw [hrf] at hsome; cases hsome
+    | some r' =>
+      obtain ⟨hr', hn'⟩ := (TieLangGraph.repG_refOf_eq_some_iff hG t r').1 hrf
+      refine ⟨by simp only [Option.bind_some, hrf, Option.toList_some, List.map_cons, List.map_nil, hn'], fun x hx => ?_⟩
+      simp only [Option.bind_some, hrf, Option.toList_some, List.mem_singleton] at hx
+      rw [hx]; exact hr'
+
+/-- **sub links mirror super links**: `sub_assets` of an object are exactly the objects that list it as super
+asset, in creation order -/
+theorem sub_links_mirror_super_links (L : Lang) (hw : WellFormed L) (R : Nat) (s : TH) (hr : runBuild L R = .ok s)
+    (r : GARef) (hmem : r ∈ s.g.assets) :
+    (s.g.asset r).sub_assets = s.g.assets.filter (fun c => (s.g.asset c).super_assets.contains r) :=
+  (repG_of_build L hw R s hr).subs r hmem
+
+/-- **each asset lists exactly the associations in which it or an ancestor takes part** (signatures of the
+declarations pairwise distinct — false without, KF-C15-1: `same_signature_merged_translated`) -/
+theorem association_lists_exact (L : Lang) (hw : WellFormed L) (R : Nat) (s : TH) (hr : runBuild L R = .ok s)
+    (hsig : SigDistinct L) (r : GARef) (hmem : r ∈ s.g.assets) (d : AssocDecl) :
+    d ∈ (s.g.asset r).associations.map (fullDeclOf s) ↔
+      d ∈ L.assocs ∧ (L.isSub (gname s.g r) d.leftAsset = true ∨ L.isSub (gname s.g r) d.rightAsset = true) := by
+  obtain ⟨g, hg, hb⟩ := built_of_run L hw R s hr
+  exact hb.assoc_list_exact hg hsig r hmem d
+
+/-- **every step-to-step link appears both in the source's `children` and in the target's `parents`** -/
+theorem links_mirrored (L : Lang) (hw : WellFormed L) (R : Nat) (s : TH) (hr : runBuild L R = .ok s) :
+    (linksOf s).Perm (parentLinksOf s) := by
+  obtain ⟨g, _, hb⟩ := built_of_run L hw R s hr
+  exact hb.mirrored
+
+/-- the attack-step objects of an asset are its own and inherited steps -/
+theorem attack_steps_of_assets (L : Lang) (hw : WellFormed L) (R : Nat) (s : TH) (hr : runBuild L R = .ok s) :
+    stepsOf s = L.assets.map (fun a => (a.name, (L.foldSteps a.name).map (·.1))) := by
+  obtain ⟨g, _, hb⟩ := built_of_run L hw R s hr
+  exact hb.steps
+
+/-- the links are exactly: one per reaches expression of every (inherited) step of every asset, to the step the
+static typing names -/
+theorem links_are_typed (L : Lang) (hw : WellFormed L) (R : Nat) (s : TH) (hr : runBuild L R = .ok s) (l : Link) :
+    l ∈ linksOf s ↔ ∃ a ∈ L.assets, ∃ st ∈ L.foldSteps a.name, ∃ e ∈ reachExprs st.2,
+      LinkOf L (builtNodes s) (genFuel L) a.name st.1 e l := by
+  obtain ⟨g, hg, hb⟩ := built_of_run L hw R s hr
+  have hf : builtNodes s = g.assocs := hb.full
+  rw [hb.mem_links, hf]
+  exact C15.links_iff L g hg l
+
+/-- **the typing tie on a built graph**: the translated `process_step_expression` answers with the hand model's
+`typeF` target and step name whenever `typeF` succeeds (sufficient fuel), and names a target only if `typeF` does
+(at that fuel) — so it fails whenever `typeF` fails, whatever the class of the failure -/
+theorem typing_of_build (L : Lang) (hw : WellFormed L) (R : Nat) (s : TH) (hr : runBuild L R = .ok s) :
+    TypingOK s L (builtNodes s) := by
+  obtain ⟨g, _, hb⟩ := built_of_run L hw R s hr
+  have hf : builtNodes s = g.assocs := hb.full
+  rw [hf]
+  exact typingOK_of_rep s L g.assocs hb.repT hw.acyclic hb.vars_wf
+
+/-- **a super asset that is not declared: `LanguageGraphSuperAssetNotFoundError`** (every recursion limit) -/
+theorem unknown_super_asset_raises (L : Lang) (hw : WellFormed L) (R : Nat) (a : AssetDecl) (ha : a ∈ L.assets)
+    (t : String) (hs : a.superAsset = some t) (hn : L.findAsset t = none) :
+    runBuild L R = .error errSuperAssetNotFound := by
+  have hL := absLang_loadPy L hw.load
+  refine unknown_super_asset_raises_general (loadPy L) R (specOK_loadPy L hw.load hw.names)
+    (by rw [hL]; exact hw.acyclic) ?_
+  rw [hL]
+  cases h : supersOk L with
+  | false => rfl
+  | true => have := (supersOk_iff L).1 h a ha t hs; rw [hn] at this; cases this
+
+/-- **an association end that is not a declared asset: `LanguageGraphAssociationError`** (every recursion limit) -/
+theorem unknown_association_end_raises (L : Lang) (hw : WellFormed L) (R : Nat) (hs : supersOk L = true)
+    (d : AssocDecl) (hd : d ∈ L.assocs) (hn : L.findAsset d.leftAsset = none ∨ L.findAsset d.rightAsset = none) :
+    runBuild L R = .error errAssociation := by
+  have hL := absLang_loadPy L hw.load
+  refine unknown_association_end_raises_general (loadPy L) R (specOK_loadPy L hw.load hw.names)
+    (by rw [hL]; exact hw.acyclic) (by rw [hL]; exact hs) ?_
+  rw [hL]
+  cases h : endsOk L with
+  | false => rfl
+  | true =>
+    have := List.all_eq_true.1 h d hd
+    rcases hn with hn | hn <;> simp [hn] at this
+
+/-- **a reaches expression that is not typed with a target asset and one of its attack steps raises** (unknown
+field, unknown variable, unknown subtype, a subtype that does not extend the target, operands without common super
+asset, a step the target does not have …; the class of the exception is not always the hand model's:
+`build_class_differs`) -/
+theorem untyped_reaches_raises (L : Lang) (hw : WellFormed L) (R : Nat) (nodes : List AssocDecl)
+    (hn : assocNodes L = .ok nodes) (a : AssetDecl) (ha : a ∈ L.assets) (st : String × StepDecl)
+    (hst : st ∈ L.foldSteps a.name) (e : Expr) (he : e ∈ reachExprs st.2)
+    (hbad : ∀ u n, typeF L nodes (genFuel L) e a.name = .ok (some (u, some n)) →
+      (L.foldSteps u).any (·.1 = n) = false) :
+    ∃ err, runBuild L R = .error err := by
+  obtain ⟨err, herr⟩ := C15.ill_formed_rejected_reaches L nodes hn a ha st hst e he hbad
+  have hL := absLang_loadPy L hw.load
+  have := build_rejects (loadPy L) R (specOK_loadPy L hw.load hw.names) (by rw [hL]; exact hw.acyclic)
+    (by rw [hL]; exact hw.fuel) err (by rw [hL]; exact herr)
+  exact this
+
+/-- whatever the hand model rejects, the translated construction rejects -/
+theorem rejected_when_model_rejects (L : Lang) (hw : WellFormed L) (R : Nat) (e : Err) (hg : generate L = .error e) :
+    ∃ err, runBuild L R = .error err := by
+  have hL := absLang_loadPy L hw.load
+  exact build_rejects (loadPy L) R (specOK_loadPy L hw.load hw.names) (by rw [hL]; exact hw.acyclic)
+    (by rw [hL]; exact hw.fuel) e (by rw [hL]; exact hg)
+
+/-- **every attack-graph edge is predicted by a link of the translated language graph** — `C15.overapprox` for
+the heap the translated `_generate_graph` built, for every well-formed language -/
+theorem overapprox_translated (L : Lang) (hw : WellFormed L) (R : Nat) (s : TH) (hr : runBuild L R = .ok s)
+    (m : Inst) (ns : List GNode) (es : List (Nat × Nat)) (hgen : genGraph L m = .ok (ns, es))
+    (hfu : FieldsUnique L (builtNodes s)) (hns : NoShadow L) (hv : ValidFor L m (builtNodes s))
+    (hexpr : ∀ A ∈ L.assets, ∀ st ∈ L.foldSteps A.name, ∀ e ∈ reachExprs st.2,
+      StarTyped L (builtNodes s) (genFuel L) e A.name ∧ (lastStep e).isSome = true)
+    (a b : Nat) (hab : (a, b) ∈ es) :
+    ∃ n ∈ ns, n.id = a ∧ ∃ X ∈ m.assets, n.asset = X.id ∧
+    ∃ t ∈ ns, t.id = b ∧ ∃ Y ∈ m.assets, ∃ tn U, t.fullName = Y.name ++ ":" ++ tn ∧
+      ({ srcAsset := X.type, srcStep := n.step, dstAsset := U, dstStep := tn } : Link) ∈ linksOf s ∧
+      L.isSub Y.type U = true := by
+  obtain ⟨g, hg, hb⟩ := built_of_run L hw R s hr
+  have hf : builtNodes s = g.assocs := hb.full
+  rw [hf] at hfu hv hexpr
+  exact hb.overapprox hg m ns es hgen hw.acyclic hfu hns hv hexpr a b hab
+
+/-- **the translated `_generate_graph` agrees with the hand model for every sufficiently large recursion limit**:
+whenever `LG.generate` accepts a well-formed language there is a bound `R0` such that for every recursion limit
+`R ≥ R0` the translated construction returns, and the heap is `Built` for the hand model's graph (with
+`built_of_run` and `rejected_when_model_rejects`: the general form of `BuildAgrees`, links up to their order,
+`link_order_differs`) -/
+theorem build_agrees_large (L : Lang) (hw : WellFormed L) (g : Graph) (hg : generate L = .ok g) :
+    ∃ R0, ∀ R, R0 ≤ R → ∃ s, runBuild L R = .ok s ∧ Built s L g := by
+  have hL := absLang_loadPy L hw.load
+  have := build_total_large (loadPy L) (specOK_loadPy L hw.load hw.names) (by rw [hL]; exact hw.acyclic)
+    (by rw [hL]; exact hw.fuel) g (by rw [hL]; exact hg)
+  rw [hL] at this
+  exact this
+
+/-- **`Acyclic` cannot be dropped**: with `A extends B extends A` the translated code (like the Python) exhausts its
+recursion, the fuel-bounded hand model accepts the language -/
+theorem acyclic_needed : runBuild cycL 1000 = .error .recursionError ∧ (generate cycL).toOption.isSome = true ∧
+    ¬ Acyclic cycL := by
+  refine ⟨?_, by decide, fun hac => ?_⟩
+  · have := build_cyclic_extends.1
+    cases h : runBuild cycL 1000 with
+    | ok s => rw [h] at this; cases this
+    | error e => rw [h] at this; simp only [Except.map] at this; cases this; rfl
+  · have := hac "C"
+    exact absurd this (by decide)
+
+/-- non-vacuity: the demo languages are `WellFormed` (decidable conditions) … -/
+example : WellFormed lgL ∧ WellFormed opsL ∧ WellFormed dirL ∧ WellFormed starL ∧ WellFormed kfL :=
+  ⟨wellFormed_of_flat lgL (by decide) (by decide) (acyclic_of_check lgL (by decide)) (by decide),
+   wellFormed_of_flat opsL (by decide) (by decide) (acyclic_of_check opsL (by decide)) (by decide),
+   wellFormed_of_flat dirL (by decide) (by decide) (acyclic_of_check dirL (by decide)) (by decide),
+   wellFormed_of_flat starL (by decide) (by decide) (acyclic_of_check starL (by decide)) (by decide),
+   wellFormed_of_flat kfL (by decide) (by decide) (acyclic_of_check kfL (by decide)) (by decide)⟩
+
+/-- … and their builds return (kernel evaluation), so the general theorems apply to them: e.g. `RepG` / `RepA` of the
+built graph of `opsL`, which has variables, intersection, difference and `+>` inheritance -/
+example : ∃ s, runBuild opsL 1000 = .ok s ∧ RepG s.g opsL ∧ (linksOf s).Perm (parentLinksOf s) ∧
+    TypingOK s opsL (builtNodes s) := by
+  have hw : WellFormed opsL :=
+    wellFormed_of_flat opsL (by decide) (by decide) (acyclic_of_check opsL (by decide)) (by decide)
+  cases hr : runBuild opsL 1000 with
+  | error e => exact absurd (show (runBuild opsL 1000).toOption.isSome = true by decide) (by rw [hr]; exact Bool.false_ne_true)
+  | ok s => exact ⟨s, rfl, repG_of_build opsL hw 1000 s hr, links_mirrored opsL hw 1000 s hr, typing_of_build opsL hw 1000 s hr⟩
+
+/-! ## Part 2 — the same clauses from the per-language check `BuildAgrees` (kept: examples, and languages outside
+`WellFormed`, e.g. with variables inside variables) -/
+
+/-- **one asset object per declared asset**, in declaration order, carrying its name -/
+theorem one_asset_per_declaration_checked (L : Lang) (R : Nat) (s : TH) (h : BuildAgrees L R) (hr : runBuild L R = .ok s) :
     s.g.assets.map (gname s.g) = L.assets.map (·.name) := by
   obtain ⟨g, _, hp⟩ := buildAgrees_run_ok h hr
   have := congrArg (fun p => p.assets.map (·.1)) hp
@@ -25,7 +269,7 @@ theorem one_asset_per_declaration (L : Lang) (R : Nat) (s : TH) (h : BuildAgrees
 
 /-- **super / sub links mirror `extends`**: the `super_assets` of the object of a declaration are the object of its
 `superAsset` (if it names one), its `sub_assets` the objects of the declarations that name it, in declaration order -/
-theorem super_sub_links_mirror_extends (L : Lang) (R : Nat) (s : TH) (h : BuildAgrees L R) (hr : runBuild L R = .ok s) :
+theorem super_sub_links_mirror_extends_checked (L : Lang) (R : Nat) (s : TH) (h : BuildAgrees L R) (hr : runBuild L R = .ok s) :
     s.g.assets.map (fun r => (gname s.g r, (s.g.asset r).super_assets.map (gname s.g),
                               (s.g.asset r).sub_assets.map (gname s.g))) =
     L.assets.map (fun a => (a.name, ((supers L a.name).drop 1).take 1,
@@ -35,7 +279,7 @@ theorem super_sub_links_mirror_extends (L : Lang) (R : Nat) (s : TH) (h : BuildA
 
 /-- the association objects are the hand model's association nodes (KF-C15-1 included: same-signature
 declarations are merged, `same_signature_merged_translated`) -/
-theorem association_nodes (L : Lang) (R : Nat) (s : TH) (h : BuildAgrees L R) (hr : runBuild L R = .ok s) :
+theorem association_nodes_checked (L : Lang) (R : Nat) (s : TH) (h : BuildAgrees L R) (hr : runBuild L R = .ok s) :
     assocNodes L = .ok (builtNodes s) := by
   obtain ⟨g, hg, hp⟩ := buildAgrees_run_ok h hr
   have hn : builtNodes s = g.assocs := congrArg Picture.nodes hp
@@ -44,7 +288,7 @@ theorem association_nodes (L : Lang) (R : Nat) (s : TH) (h : BuildAgrees L R) (h
 
 /-- **each asset lists exactly the associations in which it or an ancestor takes part** (signatures of the
 declarations pairwise distinct — without that hypothesis the statement is false, KF-C15-1) -/
-theorem association_lists_exact (L : Lang) (R : Nat) (s : TH) (h : BuildAgrees L R) (hr : runBuild L R = .ok s)
+theorem association_lists_exact_checked (L : Lang) (R : Nat) (s : TH) (h : BuildAgrees L R) (hr : runBuild L R = .ok s)
     (hsig : SigDistinct L) (r : GARef) (hmem : r ∈ s.g.assets) (d : AssocDecl) :
     d ∈ (s.g.asset r).associations.map (fullDeclOf s) ↔
       d ∈ L.assocs ∧ (L.isSub (gname s.g r) d.leftAsset = true ∨ L.isSub (gname s.g r) d.rightAsset = true) := by
@@ -61,21 +305,21 @@ theorem association_lists_exact (L : Lang) (R : Nat) (s : TH) (h : BuildAgrees L
   exact C15.assocs_of_asset L g.assocs ha hsig (gname s.g r) d
 
 /-- **every step-to-step link appears both in the source's `children` and in the target's `parents`** -/
-theorem links_mirrored (L : Lang) (R : Nat) (s : TH) (h : BuildAgrees L R) (hr : runBuild L R = .ok s) :
+theorem links_mirrored_checked (L : Lang) (R : Nat) (s : TH) (h : BuildAgrees L R) (hr : runBuild L R = .ok s) :
     (linksOf s).Perm (parentLinksOf s) := by
   obtain ⟨g, _, hp⟩ := buildAgrees_run_ok h hr
   have : decide ((linksOf s).Perm (parentLinksOf s)) = true := congrArg Picture.mirrored hp
   exact of_decide_eq_true this
 
 /-- the attack-step objects of an asset are its own and inherited steps (`_get_attacks_for_asset_type`) -/
-theorem attack_steps_of_assets (L : Lang) (R : Nat) (s : TH) (h : BuildAgrees L R) (hr : runBuild L R = .ok s) :
+theorem attack_steps_of_assets_checked (L : Lang) (R : Nat) (s : TH) (h : BuildAgrees L R) (hr : runBuild L R = .ok s) :
     stepsOf s = L.assets.map (fun a => (a.name, (L.foldSteps a.name).map (·.1))) := by
   obtain ⟨g, _, hp⟩ := buildAgrees_run_ok h hr
   exact congrArg Picture.steps hp
 
 /-- the links of the built heap are the hand model's: one per reaches expression of every (inherited) step of every
 asset, from that step to the step the static typing `process_step_expression` names -/
-theorem links_are_typed (L : Lang) (R : Nat) (s : TH) (h : BuildAgrees L R) (hr : runBuild L R = .ok s) (l : Link) :
+theorem links_are_typed_checked (L : Lang) (R : Nat) (s : TH) (h : BuildAgrees L R) (hr : runBuild L R = .ok s) (l : Link) :
     l ∈ linksOf s ↔ ∃ a ∈ L.assets, ∃ st ∈ L.foldSteps a.name, ∃ e ∈ reachExprs st.2,
       LinkOf L (builtNodes s) (genFuel L) a.name st.1 e l := by
   obtain ⟨g, hg, hp⟩ := buildAgrees_run_ok h hr
@@ -85,19 +329,19 @@ theorem links_are_typed (L : Lang) (R : Nat) (s : TH) (h : BuildAgrees L R) (hr 
   exact C15.links_iff L g hg l
 
 /-- **a super asset that is not declared: `LanguageGraphSuperAssetNotFoundError`** -/
-theorem unknown_super_asset_raises (L : Lang) (R : Nat) (h : BuildAgrees L R) (a : AssetDecl) (ha : a ∈ L.assets)
+theorem unknown_super_asset_raises_checked (L : Lang) (R : Nat) (h : BuildAgrees L R) (a : AssetDecl) (ha : a ∈ L.assets)
     (t : String) (hs : a.superAsset = some t) (hn : L.findAsset t = none) :
     runBuild L R = .error errSuperAssetNotFound :=
   buildAgrees_error h (C15.ill_formed_rejected_super L a ha t hs hn)
 
 /-- **an association end that is not a declared asset: `LanguageGraphAssociationError`** -/
-theorem unknown_association_end_raises (L : Lang) (R : Nat) (h : BuildAgrees L R) (hs : supersOk L = true)
+theorem unknown_association_end_raises_checked (L : Lang) (R : Nat) (h : BuildAgrees L R) (hs : supersOk L = true)
     (d : AssocDecl) (hd : d ∈ L.assocs) (hn : L.findAsset d.leftAsset = none ∨ L.findAsset d.rightAsset = none) :
     runBuild L R = .error errAssociation :=
   buildAgrees_error h (C15.ill_formed_rejected_assoc L hs d hd hn)
 
 /-- **a reaches expression that is not typed with a target asset and one of its attack steps raises** -/
-theorem untyped_reaches_raises (L : Lang) (R : Nat) (h : BuildAgrees L R) (nodes : List AssocDecl)
+theorem untyped_reaches_raises_checked (L : Lang) (R : Nat) (h : BuildAgrees L R) (nodes : List AssocDecl)
     (hn : assocNodes L = .ok nodes) (a : AssetDecl) (ha : a ∈ L.assets) (st : String × StepDecl)
     (hst : st ∈ L.foldSteps a.name) (e : Expr) (he : e ∈ reachExprs st.2)
     (hbad : ∀ u n, typeF L nodes (genFuel L) e a.name = .ok (some (u, some n)) →
@@ -108,7 +352,7 @@ theorem untyped_reaches_raises (L : Lang) (R : Nat) (h : BuildAgrees L R) (nodes
 
 /-- **every attack-graph edge is predicted by a link of the translated language graph**: `C15.overapprox` with the
 language graph read back from the heap the translated `_generate_graph` built -/
-theorem overapprox_translated (L : Lang) (R : Nat) (s : TH) (h : BuildAgrees L R) (hr : runBuild L R = .ok s)
+theorem overapprox_translated_checked (L : Lang) (R : Nat) (s : TH) (h : BuildAgrees L R) (hr : runBuild L R = .ok s)
     (m : Inst) (ns : List GNode) (es : List (Nat × Nat)) (hgen : genGraph L m = .ok (ns, es))
     (hac : Acyclic L) (hfu : FieldsUnique L (builtNodes s)) (hns : NoShadow L) (hv : ValidFor L m (builtNodes s))
     (hexpr : ∀ A ∈ L.assets, ∀ st ∈ L.foldSteps A.name, ∀ e ∈ reachExprs st.2,
@@ -128,7 +372,7 @@ theorem overapprox_translated (L : Lang) (R : Nat) (s : TH) (h : BuildAgrees L R
 /-- the typing function of the translated code on the built graph: when it names a target asset and `L` passes
 `TypingAgreesUpToClass` for the expression, that is the hand model's static type — so `C15.type_soundness` applies
 to what the translated `process_step_expression` answers -/
-theorem typing_is_model (L : Lang) (R : Nat) (es : List Expr) (h : TypingAgreesUpToClass L R es)
+theorem typing_is_model_checked (L : Lang) (R : Nat) (es : List Expr) (h : TypingAgreesUpToClass L R es)
     (s : TH) (hr : runBuild L R = .ok s) (a : AssetDecl) (ha : a ∈ L.assets) (e : Expr) (he : e ∈ es)
     (U : String) (st : Option String) (ht : typed (typeRun s R a.name e) = some (U, st)) :
     ∃ g, generate L = .ok g ∧ typeF L g.assocs (genFuel L) e a.name = .ok (some (U, st)) := by
@@ -166,8 +410,8 @@ example : ∃ s, runBuild lgL 1000 = .ok s ∧
     | ok g => exact ⟨g, rfl⟩
     | error e => exact absurd (show (generate lgL).toOption.isSome = true by decide) (by rw [h]; exact Bool.false_ne_true)
   obtain ⟨s, hr, hp⟩ := buildAgrees_ok build_lgL hg
-  refine ⟨s, hr, ?_, ?_, ?_, ?_, ?_, links_mirrored lgL 1000 s build_lgL hr⟩
-  · rw [one_asset_per_declaration lgL 1000 s build_lgL hr]; decide
+  refine ⟨s, hr, ?_, ?_, ?_, ?_, ?_, links_mirrored_checked lgL 1000 s build_lgL hr⟩
+  · rw [one_asset_per_declaration_checked lgL 1000 s build_lgL hr]; decide
   all_goals
     have h2 : (runBuild lgL 1000).map (fun s => ((s.g.asset 2).super_assets.map (gname s.g),
         (s.g.asset 0).sub_assets.map (gname s.g), (s.g.asset 2).associations.map (fun c => (fullDeclOf s c).name),
@@ -199,7 +443,7 @@ example : ∃ s ns es, runBuild lgL 1000 = .ok s ∧ genGraph lgL lgM = .ok (ns,
       obtain ⟨s, hr, hp⟩ := buildAgrees_ok build_lgL hg
       have hn : builtNodes s = [runs, hl, ho] := (congrArg Picture.nodes hp).trans h1
       refine ⟨s, ns, es, hr, rfl, h2, fun a b hab => ?_⟩
-      refine overapprox_translated lgL 1000 s build_lgL hr lgM ns es hgen (acyclic_of_check lgL (by decide)) ?_
+      refine overapprox_translated_checked lgL 1000 s build_lgL hr lgM ns es hgen (acyclic_of_check lgL (by decide)) ?_
         (noShadow_of_no_variables lgL (by decide)) ?_ ?_ a b hab
       · rw [hn]; exact fieldsUnique_of_check lgL _ (by decide)
       · rw [hn]; exact ⟨by decide, by decide, by decide⟩
@@ -209,8 +453,8 @@ example : ∃ s ns es, runBuild lgL 1000 = .ok s ∧ genGraph lgL lgM = .ok (ns,
 
 /-- the raising clauses apply to the ill-formed variants of `dirL` -/
 example : runBuild badSuperL 1000 = .error errSuperAssetNotFound :=
-  unknown_super_asset_raises badSuperL 1000 build_badSuperL _ (List.mem_singleton.2 rfl) "Nowhere" rfl (by decide)
+  unknown_super_asset_raises_checked badSuperL 1000 build_badSuperL _ (List.mem_singleton.2 rfl) "Nowhere" rfl (by decide)
 example : runBuild badEndL 1000 = .error errAssociation :=
-  unknown_association_end_raises badEndL 1000 build_badEndL (by decide) _ (List.mem_singleton.2 rfl) (Or.inr (by decide))
+  unknown_association_end_raises_checked badEndL 1000 build_badEndL (by decide) _ (List.mem_singleton.2 rfl) (Or.inr (by decide))
 
 end MalVerif.PropsGen.C15_Build
